@@ -1210,6 +1210,10 @@ func checkLinkFirst(p *load.Program, r *kit.Report, rule string) {
 		}
 		if e := isElem(v); e != nil {
 			n++
+			if _, lo, okC := indexCounter(kit.Strip(e.X.(*ssa.IndexAddr).Index)); !okC || lo != 0 {
+				bad = "the list is not scanned from its first (oldest) branch upwards in steps of one: Find answers through ancestors, so with any other order the first branch that knows the previous hash can be a sibling that forked lower, not the parent"
+				return
+			}
 			h := loopHeaderOf(e.Block())
 			if h == nil {
 				bad = "the branch stored as parent is not taken inside a loop over the list"
